@@ -27,33 +27,44 @@
 (***************************************************************************)
 EXTENDS UciSession
 
-VARIABLES epos, act
+CONSTANT SessOpts   \* the options this batch of sessions plays with (a few per TLC run keeps the commands of a session balanced)
 
-hvars == <<vars, epos, act>>
+VARIABLES epos,    \* the position the engine must hold
+          opts,    \* option -> "default" (never set in this session) | "true" | "false": what the configuration must show
+          act
+
+hvars == <<vars, epos, opts, act>>
 
 GameLen == <<6, 4, 5>>
 Games == 1..3
 GoKinds == {"depth", "nodes", "movetime", "clock", "searchmoves", "inf", "infdepth", "ponderclock", "ponderdepth"}
 ModeOf(kind) == IF kind \in {"inf", "infdepth"} THEN "inf" ELSE IF kind \in {"ponderclock", "ponderdepth"} THEN "ponder" ELSE "finite"
-Options == {"Use_Hash", "Use_PVS", "Eval_Lazy", "Use_Killer"}
+\* the check options a session plays with (every option of OptionField that leaves the searches of a session short and
+\* needs no file: the book switch and the two experimental root-search variants are covered by the one-shot option check)
+Options == SessOpts
+ASSUME SessOpts \subseteq DOMAIN OptionField \ {"Hash", "Use_Book", "Use_ASP", "Use_MTDf"}
 
-HInit == Init /\ epos = <<0, 0>> /\ act = "init"
+HInit == Init /\ epos = <<0, 0>> /\ opts = [o \in Options |-> "default"] /\ act = "init"
 
 Log(c, a) == act' = ToJson([c |-> c, a |-> a, g |-> epos'[1], k |-> epos'[2]])
 
 HGui ==
     \/ \E g \in Games : \E k \in 0..GameLen[g] :
-          GuiIdleCmd /\ epos' = <<g, k>> /\ Log("position", <<g, k>>)
-    \/ GuiIdleCmd /\ epos' = <<0, 0>> /\ Log("ucinewgame", "")
-    \/ \E o \in Options, v \in BOOLEAN : GuiIdleCmd /\ UNCHANGED epos /\ Log("setoption", <<o, v>>)
-    \/ \E kind \in GoKinds : GuiGo(ModeOf(kind)) /\ UNCHANGED epos /\ Log("go", kind)
-    \/ pend \in {"inf", "ponder"} /\ ~stopped /\ GuiStop /\ UNCHANGED epos /\ Log("stop", "")
-    \/ pend = "ponder" /\ ~stopped /\ ~hit /\ GuiPonderHit /\ UNCHANGED epos /\ Log("ponderhit", "")
-    \/ pend # "finite" /\ nready = 0 /\ GuiIsReady /\ UNCHANGED epos /\ Log("isready", "")
+          GuiIdleCmd /\ epos' = <<g, k>> /\ UNCHANGED opts /\ Log("position", <<g, k>>)
+    \/ GuiIdleCmd /\ epos' = <<0, 0>> /\ UNCHANGED opts /\ Log("ucinewgame", "")
+    \* setoption changes exactly the named setting; the configuration print-out must show every option at the value it was
+    \* last set to in this session (and the others where they were at the first print-out), whatever happened in between
+    \/ \E o \in Options, v \in {"true", "false"} :
+          GuiIdleCmd /\ UNCHANGED epos /\ opts' = [opts EXCEPT ![o] = v] /\ Log("setoption", <<o, v>>)
+    \/ GuiIdleCmd /\ UNCHANGED <<epos, opts>> /\ Log("printconfig", opts)
+    \/ \E kind \in GoKinds : GuiGo(ModeOf(kind)) /\ UNCHANGED <<epos, opts>> /\ Log("go", kind)
+    \/ pend \in {"inf", "ponder"} /\ ~stopped /\ GuiStop /\ UNCHANGED <<epos, opts>> /\ Log("stop", "")
+    \/ pend = "ponder" /\ ~stopped /\ ~hit /\ GuiPonderHit /\ UNCHANGED <<epos, opts>> /\ Log("ponderhit", "")
+    \/ pend # "finite" /\ nready = 0 /\ GuiIsReady /\ UNCHANGED <<epos, opts>> /\ Log("isready", "")
 
 HEng ==
-    \/ EngBestmove /\ UNCHANGED epos /\ Log("bestmove", "")
-    \/ EngReadyOk /\ UNCHANGED epos /\ Log("readyok", "")
+    \/ EngBestmove /\ UNCHANGED <<epos, opts>> /\ Log("bestmove", "")
+    \/ EngReadyOk /\ UNCHANGED <<epos, opts>> /\ Log("readyok", "")
 
 \* a scriptable session: an isready is answered before anything else is sent, a finite go is awaited at once,
 \* and a stop / ponderhit is awaited before the next command
